@@ -152,6 +152,8 @@ def run_job(ctx, name, settings, W=16, mode='pool', program='HIP_RA_X', base=Non
     (d / 'base.txt').write_text(base if base is not None else hiprax_base())
     settings_run = settings.replace('{JOBDIR}', str(d))
     (d / 'settings.txt').write_text(settings_run)
+    if parse_settings_raw(settings_run)[3]:
+        Path(parse_settings_raw(settings_run)[3]).parent.mkdir(parents=True, exist_ok=True)
     job = {'program': program, 'base': str(d / 'base.txt'), 'settings': str(d / 'settings.txt'),
            'result': str(d / 'result.txt'), 'W': W, 'mode': mode}
     first = None
@@ -168,8 +170,10 @@ def run_job(ctx, name, settings, W=16, mode='pool', program='HIP_RA_X', base=Non
     o = json.loads(out.read_text())
     res = Path(parse_settings_raw(settings_run)[3] or d / 'result.txt')      # an MC_OUTPUT_FILE line overrides the argument
     js = res.with_suffix('.json')
+    stray = [str(q.relative_to(d)) for q in d.rglob('*.json')      # summaries written anywhere else in the job directory
+             if q not in (js, d / 'job.json', d / 'out.json') and q.relative_to(d).parts[0] not in ('tmp', 'log')]
     return Run({'name': name, 'dir': d, 'settings': settings, 'settings_run': settings_run, 'W': W, 'mode': mode, 'program': program,
-                'base': base if base is not None else hiprax_base(), 'main_error': o['main_error'], 'tasks': o['tasks'], 'api': o.get('api') or [], 'settings_first': first,
+                'base': base if base is not None else hiprax_base(), 'main_error': o['main_error'], 'tasks': o['tasks'], 'api': o.get('api') or [], 'settings_first': first, 'stray_json': stray, 'result_path': str(res),
                 'result_text': res.read_text() if res.exists() else None,
                 'json_text': js.read_text() if js.exists() else None})
 
